@@ -35,7 +35,11 @@ CONSTANTS
   KF_CounterGrowth,     \* D11c: counter entries created for unauthenticated ids, never pruned
   KF_StraySigFlush,     \* D12: any Reveal-Sig/Sig message flushes the resend queue
   KF_ReAKEWipesMacs,    \* D15: refresh AKE drops undisclosed MAC keys
-  KF_FragKeep           \* D5: a completed fragment stream is not forgotten
+  KF_FragKeep,          \* D5: a completed fragment stream is not forgotten
+  KF_BadCommitWipes,    \* D19: an unparsable DH-Commit wipes the key exchange in progress
+  KF_EarlyPeerKey,      \* D20: peer key / SSID are overwritten before the signature is verified
+  KF_RejectCommits,     \* D21: a rejected binary message commits the version / binds the peer tag
+  KF_AKETimerAlways     \* D22: every AKE-type message restarts the query-ignore window
 
 NoText == 0
 
@@ -105,7 +109,7 @@ WithOwnTag(s) == IF s.ver = 3 /\ s.otag = 0 THEN [s EXCEPT !.otag = TagOf(s.me)]
 \* verifyInstanceTags (v3). Returns [s, verdict] with verdict in {"ok","bad","other"}
 VerifyTags(s, st, rt) ==
   LET adopt == IF KF_TagAdoptEarly THEN (s.ttag = 0)
-               ELSE (s.ttag = 0 /\ st > 0 /\ rt >= 0)
+               ELSE (s.ttag = 0 /\ st > 0 /\ rt >= 0 /\ (rt = 0 \/ s.otag = rt))
       s1 == IF adopt THEN [s EXCEPT !.ttag = st] ELSE s
   IN IF rt = -1 \/ st <= 0 THEN [s |-> s1, verdict |-> "bad"]
      ELSE IF (rt # 0 /\ s1.otag # rt) \/ s1.ttag # st THEN [s |-> s1, verdict |-> "other"]
@@ -247,10 +251,11 @@ RecvRevealSig(s, m, fresh) ==
   ELSE
     LET gx == s.aenc
         s1 == [s EXCEPT !.agy = gx, !.sess = SortedPair(s.ax, gx)]
-    IN IF ~BlobMACOk(m.xs, "R", s.ax, gx) THEN Res(s1, <<>>, NoText, TRUE, <<>>)
+        keep == IF KF_EarlyPeerKey THEN s1 ELSE s
+    IN IF ~BlobMACOk(m.xs, "R", s.ax, gx) THEN Res(keep, <<>>, NoText, TRUE, <<>>)
        ELSE
         LET s2 == [s1 EXCEPT !.peer = m.xs.pub]
-        IN IF ~BlobSigOk(m.xs, s.ax, gx) THEN Res(s2, <<>>, NoText, TRUE, <<>>)
+        IN IF ~BlobSigOk(m.xs, s.ax, gx) THEN Res(IF KF_EarlyPeerKey THEN s2 ELSE s, <<>>, NoText, TRUE, <<>>)
            ELSE
             LET s3 == WithOwnTag([s2 EXCEPT !.atid = m.xs.kid, !.akid = s2.akid + 1, !.rev = FALSE, !.auth = "none"])
                 sig == SigMsg(s3, SigBlob("S", s3.ax, gx, s3.me, s3.akid))
@@ -262,7 +267,7 @@ RecvSig(s, m, fresh) ==
   ELSE IF ~BlobMACOk(m.xs, "S", s.ax, s.agy) THEN Res(s, <<>>, NoText, TRUE, <<>>)
   ELSE
     LET s2 == [s EXCEPT !.peer = m.xs.pub]
-    IN IF ~BlobSigOk(m.xs, s.ax, s.agy) THEN Res(s2, <<>>, NoText, TRUE, <<>>)
+    IN IF ~BlobSigOk(m.xs, s.ax, s.agy) THEN Res(IF KF_EarlyPeerKey THEN s2 ELSE s, <<>>, NoText, TRUE, <<>>)
        ELSE LET s3 == [s2 EXCEPT !.atid = m.xs.kid, !.auth = "none"]
                 f == Finish(s3, fresh)
             IN Res(f.s, <<>>, NoText, FALSE, f.evs)
@@ -277,7 +282,8 @@ RecvAKE(s0, m, fresh, hi) ==
       finished == (r.s.ms = "enc" /\ r.s.auth = "none" /\ s.auth \in {"awRevSig", "awSig"} /\ ~r.err)
       rt == IF m.t \in {"RS", "SIG"} /\ (KF_StraySigFlush \/ finished)
             THEN Retransmit(r.s) ELSE [s |-> r.s, out |-> <<>>, evs |-> <<>>]
-      s9 == [rt.s EXCEPT !.rstep = TRUE]
+      acted == ~r.err /\ (r.out # <<>> \/ r.s.auth # s.auth)
+      s9 == IF KF_AKETimerAlways \/ acted THEN [rt.s EXCEPT !.rstep = TRUE] ELSE rt.s
   IN IF r.err THEN Res(s9, <<>>, NoText, TRUE, r.evs \o rt.evs \o <<"msg:SetupError">>)
      ELSE Res(s9, r.out \o rt.out, NoText, FALSE, r.evs \o rt.evs)
 
@@ -333,7 +339,7 @@ RecvData(s, m, fresh) ==
        ELSE IF mine = 0 \/ theirs = 0 THEN RejectData(sctr, m, unr)
        ELSE
         LET sm == [sctr EXCEPT !.macs = @ \cup {<<m.rkid, m.skid, theirs, mine>>}]
-        IN IF m.mac # <<theirs, mine>> THEN RejectData(sm, m, unr)
+        IN IF m.mac # <<theirs, mine>> THEN RejectData(IF KF_MacPerMessage THEN sm ELSE sctr, m, unr)
            ELSE IF ~KF_CounterFirst /\ replay THEN RejectData(sm, m, unr)
            ELSE
             LET s1 == SetCtr(sm, <<m.rkid, m.skid, CtrOf(sm, m.rkid, m.skid)[3], m.ctr>>)
@@ -398,22 +404,73 @@ RecvError(s, m) ==
   LET s1 == IF s.ms = "enc" THEN [s EXCEPT !.rsf = 1] ELSE s
   IN Res(s1, IF s.pol.errstart THEN <<QueryMsg(s)>> ELSE <<>>, NoText, FALSE, <<"msg:ReceivedMessageGeneralError">>)
 
+\* a rejected message decides neither the version nor the peer instance
+Rollback(after, before) == IF KF_RejectCommits THEN after ELSE [after EXCEPT !.ver = before.ver, !.ttag = before.ttag]
+
 \* binary messages: version check, header (tags), dispatch
 RecvEncoded(s, m, fresh, hi) ==
   LET v == Commit(s, {m.v})
   IN IF v = 0 THEN Res(s, <<>>, NoText, TRUE, <<>>)
      ELSE
       LET s1 == [s EXCEPT !.ver = v]
-      IN IF v # m.v THEN Res(s1, <<>>, NoText, TRUE, <<>>)
+      IN IF v # m.v THEN Res(Rollback(s1, s), <<>>, NoText, TRUE, <<>>)
          ELSE
           LET vt == IF v = 3 THEN VerifyTags(s1, m.st, m.rt) ELSE [s |-> s1, verdict |-> "ok"]
           IN CASE vt.verdict = "bad" ->
-                    Res(vt.s, <<ErrorMsg>>, NoText, TRUE, <<"msg:ReceivedMessageMalformed">>)
+                    Res(Rollback(vt.s, s), <<ErrorMsg>>, NoText, TRUE, <<"msg:ReceivedMessageMalformed">>)
                [] vt.verdict = "other" ->
-                    Res(vt.s, <<>>, NoText, FALSE, <<"msg:ReceivedMessageForOtherInstance">>)
+                    Res(Rollback(vt.s, s), <<>>, NoText, FALSE, <<"msg:ReceivedMessageForOtherInstance">>)
                [] OTHER ->
-                    IF m.t = "D" THEN RecvData(vt.s, m, fresh)
-                    ELSE RecvAKE(vt.s, m, fresh, hi)
+                    LET r == IF m.t = "D" THEN RecvData(vt.s, m, fresh) ELSE RecvAKE(vt.s, m, fresh, hi)
+                    IN IF r.err \/ (m.t # "D" /\ r.out = <<>>) THEN [r EXCEPT !.s = Rollback(r.s, s)] ELSE r
+
+\* Unparsable binary messages (t = "G"): why in
+\*   "unknown" (no known type prefix), "armour" (bad base64), "short0" (< 2 bytes), "hdrshort", "version",
+\*   "v1", "type" (unknown message type), "dhcommit" | "dhkey" | "revealsig" | "sig" | "data" (body does not parse)
+RecvGarbageAKE(s0, m, fresh) ==
+  LET s == IF s0.auth = "nil" THEN [s0 EXCEPT !.auth = "none", !.rstep = FALSE] ELSE s0
+      fail(x) == Res(IF KF_AKETimerAlways THEN [x EXCEPT !.rstep = TRUE] ELSE x, <<>>, NoText, TRUE, <<"msg:SetupError">>)
+      ign(x) == Res(IF KF_AKETimerAlways THEN [x EXCEPT !.rstep = TRUE] ELSE x, <<>>, NoText, FALSE, <<>>)
+  IN CASE m.why = "type" -> fail(s)
+       [] m.why = "dhcommit" ->
+            IF ~KF_BadCommitWipes THEN fail(s)
+            ELSE CASE s.auth \in {"none", "awSig"} -> fail([WipeAKE(s) EXCEPT !.auth = "none", !.ax = fresh])
+                   [] s.auth = "awRevSig" -> fail([s EXCEPT !.aenc = 0, !.ahash = 0, !.akid = 0, !.atid = 0])
+                   [] OTHER -> fail(s)
+       [] m.why = "dhkey" -> IF s.auth \in {"awDHKey", "awSig"} THEN fail(s) ELSE ign(s)
+       [] m.why = "revealsig" -> IF s.auth = "awRevSig" THEN fail(s) ELSE ign(s)
+       [] m.why = "sig" -> IF s.auth = "awSig" THEN fail(s) ELSE ign(s)
+
+RecvGarbage(s, m, fresh) ==
+  CASE m.why = "unknown" -> Res(Forget(s), <<>>, NoText, FALSE, <<"msg:ReceivedMessageUnrecognized">>)
+    [] m.why = "v1" -> Res(s, <<>>, NoText, TRUE, <<>>)
+    [] m.why \in {"armour", "short0"} -> Res(Forget(s), <<>>, NoText, TRUE, <<>>)
+    [] m.why \in {"version", "hdrshort"} ->
+         LET v == Commit(s, {m.v})
+             s1 == IF v = 0 THEN s ELSE [s EXCEPT !.ver = v]
+             s2 == Rollback(s1, s)
+         IN IF v = 0 \/ v # m.v \/ m.why = "version" THEN Res(Forget(s2), <<>>, NoText, TRUE, <<>>)
+            ELSE IF v = 3 THEN Res(Forget(s2), <<ErrorMsg>>, NoText, TRUE, <<"msg:ReceivedMessageMalformed">>)
+            ELSE Res(Forget(s2), <<>>, NoText, TRUE, <<>>)
+    [] OTHER ->
+         LET v == Commit(s, {m.v})
+         IN IF v = 0 THEN Res(Forget(s), <<>>, NoText, TRUE, <<>>)
+            ELSE
+             LET s1 == [s EXCEPT !.ver = v]
+             IN IF v # m.v THEN Res(Forget(Rollback(s1, s)), <<>>, NoText, TRUE, <<>>)
+                ELSE
+                 LET vt == IF v = 3 THEN VerifyTags(s1, m.st, m.rt) ELSE [s |-> s1, verdict |-> "ok"]
+                     r == CASE vt.verdict = "bad" ->
+                                 Res(vt.s, <<ErrorMsg>>, NoText, TRUE, <<"msg:ReceivedMessageMalformed">>)
+                            [] vt.verdict = "other" ->
+                                 Res(vt.s, <<>>, NoText, FALSE, <<"msg:ReceivedMessageForOtherInstance">>)
+                            [] m.why = "data" ->
+                                 IF vt.s.ms # "enc"
+                                 THEN Res(vt.s, <<>>, NoText, m.flag % 2 = 0, <<"msg:ReceivedMessageNotInPrivate">>)
+                                 ELSE IF m.flag % 2 = 1 THEN Res(vt.s, <<>>, NoText, FALSE, <<>>)
+                                 ELSE Res(vt.s, <<ErrorMsg>>, NoText, TRUE, <<"msg:ReceivedMessageMalformed">>)
+                            [] OTHER -> RecvGarbageAKE(vt.s, m, fresh)
+                 IN [r EXCEPT !.s = Forget(IF r.err \/ vt.verdict = "other" \/ (m.why # "data" /\ r.out = <<>>) THEN Rollback(r.s, s) ELSE r.s)]
 
 \* Receive of one complete (unfragmented or reassembled) message
 Receive(s, m, fresh, hi) ==
@@ -423,14 +480,23 @@ Receive(s, m, fresh, hi) ==
          [] m.t = "P" -> LET r == RecvPlain(s, m, fresh) IN [r EXCEPT !.s = Forget(r.s)]
          [] m.t \in {"DHC", "DHK", "RS", "SIG", "D"} ->
               LET r == RecvEncoded(s, m, fresh, hi) IN [r EXCEPT !.s = Forget(r.s)]
-         [] OTHER -> Res(Forget(s), <<>>, NoText, FALSE, <<>>)
+         [] m.t = "G" /\ m.why \notin {"fragments", "strayfragment"} -> RecvGarbage(s, m, fresh)
+         [] OTHER -> Res(s, <<>>, NoText, FALSE, <<>>)
 
 \* Receive of a message that arrives as nf in-order fragments (nf = 1: whole).
 \* The intermediate fragments return nothing; the last one processes the
 \* reassembled message with forgetFragments = false.
+\* Every fragment's prefix names the version (and, under v3, carries the instance tags):
+\* the first fragment already commits the version and may bind the peer's tag.
 ReceiveFrags(s, m, nf, fresh, hi) ==
-  LET r == Receive(s, m, fresh, hi)
-  IN IF nf > 1 /\ KF_FragKeep /\ OTREnabled(s) THEN [r EXCEPT !.s.frag = <<nf, nf>>] ELSE r
+  IF nf <= 1 \/ ~OTREnabled(s) \/ m.t \notin {"DHC", "DHK", "RS", "SIG", "D"} THEN Receive(s, m, fresh, hi)
+  ELSE
+    LET v == Commit(s, {m.v})
+        s1 == IF v = 0 THEN s ELSE [s EXCEPT !.ver = v]
+        vt == IF v = 3 /\ m.v = 3 THEN VerifyTags(s1, m.st, m.rt) ELSE [s |-> s1, verdict |-> "ok"]
+    IN IF v = 0 \/ vt.verdict # "ok" THEN Res(vt.s, <<>>, NoText, v = 0, <<>>)
+       ELSE LET r == Receive(vt.s, m, fresh, hi)
+            IN IF KF_FragKeep THEN [r EXCEPT !.s.frag = <<nf, nf>>] ELSE r
 
 \* ------------------------------------------------------------------------
 \* User calls
